@@ -1070,4 +1070,82 @@ def mon_c19(cfg, steps):
     return out
 
 
-MONITORS = {"C19": mon_c19, "C20": mon_c20, "C04": mon_c04, "C15": mon_c15, "C03": mon_c03, "C08": mon_c08, "C10": mon_c10, "C11": mon_c11, "C12": mon_c12, "C05": mon_c05, "C06": mon_c06, "C17": mon_c17, "C13": mon_c13, "C14": mon_c14, "C09": mon_c09, "C07": mon_c07, "C18": mon_c18}
+# ---------------- C16 ----------------
+E27 = 10 ** 27
+
+
+def rate_in_domain(n, l):
+    """exchange rate N/L within [10^-3, 10^3]; with no LST outstanding there is no rate (the code guards that case)"""
+    if l == 0:
+        return True
+    return n * 1000 >= l and n <= 1000 * l
+
+
+def funds_of(tok):
+    out = []
+    inner = tok[1:-1]
+    for c in inner.split(","):
+        if c:
+            d, a = c.split(":"); out.append((unhex(d).decode("latin1"), int(a)))
+    return out
+
+
+def c16_domain(s):
+    """(in_domain, why_not): the property's stated domain for one call"""
+    t = s.optoks; pre = s.pre
+    if t[0] in ("exec", "texec", "inst", "tinst") and t[1].isdigit() and int(t[1]) > 2 ** 63:
+        return False, "block time beyond the year 2262 (not a time the chain can produce)"
+    if pre is not None:
+        for k in ("N", "L", "reward", "fees"):
+            if pre[k] > E27:
+                return False, "state total %s above 10^27" % k
+        if not rate_in_domain(pre["N"], pre["L"]):
+            return False, "exchange rate of the state outside [10^-3, 10^3]"
+        if any(b["total"] > E27 or (b["expected"] or 0) > E27 or (b["received"] or 0) > E27 for b in pre["batches"].values()):
+            return False, "batch amount above 10^27"
+    if t[0] == "exec":
+        amts = [a for _, a in funds_of(t[4])]
+        if any(a > E27 for a in amts):
+            return False, "funds above 10^27"
+        k = t[5]
+        if k == "resume":
+            n, l, r = int(t[6]), int(t[7]), int(t[8])
+            if max(n, l, r) > E27 or not rate_in_domain(n, l):
+                return False, "resume totals outside the domain"
+        if k == "feewd" and int(t[6]) > E27:
+            return False, "amount above 10^27"
+        if k == "stake" and t[8] != "-" and int(t[8]) > E27:
+            return False, "expected amount above 10^27"
+        if k == "rewards" and pre is not None and amts:
+            a = amts[0]; fee = pre["fee"]["rate"] * a // 100000
+            if fee <= a and not rate_in_domain(pre["N"] + a - fee, pre["L"]):
+                return False, "reward would move the rate outside [10^-3, 10^3]"
+            if pre["N"] + a > E27 or pre["reward"] + a > E27:
+                return False, "reward would move a total above 10^27"
+        if k == "stake" and pre is not None and amts and (pre["N"] + amts[0] > E27 or pre["L"] + amts[0] * 1000 > E27 * 1000):
+            return False, "stake would move a total above 10^27"
+    return True, ""
+
+
+def mon_c16(cfg, steps):
+    """no entry point call within the stated domain ends in a panic (observed through catch_unwind in the harness)"""
+    out = []
+    for s in steps:
+        if s.res != "panic":
+            continue
+        ok, why = c16_domain(s)
+        if not ok:
+            continue
+        t = s.optoks
+        k = t[5] if t[0] == "exec" else " ".join(t[:2]) if t[0] in ("query", "tquery", "sudo", "reply") else t[0]
+        pre = s.pre or {}
+        ctx = ""
+        if pre:
+            ctx = " (totals N=%d L=%d, fee rate %d, batch period %d, unbonding %d, oracle %s, treasury %s)" % (
+                pre["N"], pre["L"], pre["fee"]["rate"], pre["batch_period"], pre["native"]["unbonding"],
+                "set" if pre["protocol"]["oracle"] else "absent", "set" if pre["fee"]["treasury"] else "absent")
+        out.append({"step": s.idx, "what": "PANIC: %s panics within the stated domain%s" % (k, ctx)})
+    return out
+
+
+MONITORS = {"C16": mon_c16, "C19": mon_c19, "C20": mon_c20, "C04": mon_c04, "C15": mon_c15, "C03": mon_c03, "C08": mon_c08, "C10": mon_c10, "C11": mon_c11, "C12": mon_c12, "C05": mon_c05, "C06": mon_c06, "C17": mon_c17, "C13": mon_c13, "C14": mon_c14, "C09": mon_c09, "C07": mon_c07, "C18": mon_c18}
